@@ -12,9 +12,9 @@ from sim.models import Forest
 
 
 # ------------------------------------------------------------------ traces
-def base_run(seed, clustered=None, n_mut=None):
+def base_run(seed, clustered=None, n_mut=None, n_samples=None):
     """A real simulated run that supplies loaded data / samples / clusters (and a genuine sampled trace)."""
-    spec = wp.spec_from_seed(seed, boundary=False, finite_clock=False, clustered=clustered, n_mut=n_mut)
+    spec = wp.spec_from_seed(seed, boundary=False, finite_clock=False, clustered=clustered, n_mut=n_mut, n_samples=n_samples, exotic=True)
     r = random.Random(seed ^ 0xABCDEF)
     spec["options"]["num_iters"] = r.choice([2, 5, 10])
     spec["options"]["grid_size"] = 11
@@ -83,10 +83,10 @@ def synthetic_results(seed, base):
     elif kind == "nested" and nested_majority_pool(n):
         pool = r.choice(nested_majority_pool(n))
     elif kind == "many":
-        pool = [random_forest(r, n) for _ in range(r.choice([11, 14, 20]))]  # ten or more distinct topologies (ids t_10, t_11, ...)
+        pool = [random_forest(r, n) for _ in range(r.choice([11, 14, 20, 120]))]  # ten or more distinct topologies (ids t_10, t_11, ...)
     else:
         pool = [random_forest(r, n) for _ in range(r.choice([1, 2, 3, 5]))]
-    k = r.choice([1, 2, 3, 4])
+    k = r.choice([1, 2, 3, 4, 6])
     alpha = r.choice([0.5, 1.0, 3.0])
     td = TreeJointDistribution(FSCRPDistribution(alpha))
     results = {}
@@ -95,7 +95,7 @@ def synthetic_results(seed, base):
     forms = set()
     for ch in chain_order:
         trace = []
-        for i in range((r.choice([1, 2, 4, 8, 15]) if kind != "many" else r.choice([15, 25, 40])) if kind != "nested" else r.choice([3, 6, 12])):
+        for i in range((r.choice([1, 2, 4, 8, 15]) if kind != "many" else r.choice([15, 25, 40, 90])) if kind != "nested" else r.choice([3, 6, 12])):
             if kind == "nested":
                 f = pool[i % len(pool)]
             else:
@@ -433,8 +433,8 @@ def summary_task(item):
     seed, prop = item
     r = random.Random(seed)
     clustered = r.random() < 0.35
-    n_mut = r.choice([1, 2, 3, 4, 5, 6, 6, 8])
-    spec, base = base_run(runner.hash64(seed, "base") % (1 << 62), clustered=clustered, n_mut=n_mut)
+    n_mut = r.choice([1, 2, 3, 4, 5, 6, 6, 8, 11, 14])
+    spec, base = base_run(runner.hash64(seed, "base") % (1 << 62), clustered=clustered, n_mut=n_mut, n_samples=r.choice([1, 1, 2, 3, 5]))
     out = {"seed": seed, "problems": [], "probes": {}, "kind": None, "n_forms": 0, "chains": 0, "entries": 0, "commands": 0, "skipped": None,
            "sched": dict(base["stats"])}
     if base["results"] is None:
@@ -488,7 +488,7 @@ def summary_task(item):
                     if o["ok"]:
                         probs += check_table(res_p, o["table"], o["newick"], "map")
                         probs += check_table_values(res_p, o["table"], o["newick"], "map")
-            top = r.choice([None, 1, 2, 3, 5, 11, 100])
+            top = r.choice([None, 1, 2, 3, 5, 11, 27, 100])
             o = wp.run_summaries(img, ("topology", top, True))
             out["commands"] += 1
             if prop == "C11":
